@@ -217,3 +217,17 @@ EXTRA3 = {
 for _k, _v in EXTRA3.items():
     _t = CLAIMED[_k]
     CLAIMED[_k] = (_t[0], _t[1] + " " + _v, _t[2], _t[3])
+EXTRA4 = {
+ "C02": "Round 8: who signs - every call of the blind-signing primitive lies in the swap or mint operation (a new operation that signs, e.g. melt change, is an outflow no amount rule has examined and fails closed).",
+ "C05": "Round 8: no statement of the module deletes or replaces rows of melt_quotes (a PENDING quote that disappears can never adopt the Lightning outcome).",
+ "C06": "Round 8: the validation-before-mutation discipline is also demanded of every route that is new on the tree and writes persistent state; a PENDING marker written by an operation body or a new helper is compensated on every failure path (the revert may sit in a new helper).",
+ "C08": "Round 8: at every wallet call of crypto.BlindMessage the blinding factor is a fresh key or the NUT-13 derivation and the secret of the same output is not computed from it.",
+ "C10": "Round 8: swap and mint hand out, position by position, the result of the signing helper for the request's own output list (not a stored list read back).",
+ "C12": "Round 8: the SIG_ALL scan passes over an input only when it is not a NUT-10 secret or not SIG_ALL; the input validator accepts only when EVERY P2PK / HTLC input went through its lock verifier (no skipped iteration).",
+ "C13": "Round 8: a witness decoded once per output starts from the zero value for every output (decode destination declared in the loop or reset in the iteration).",
+ "C15": "Round 8: state check and restore are not served from the response cache (route census shared with C20.R4).",
+ "C17": "Round 8: existing proofs pay the fee of their own keysets (the count-based fee helper is never applied to the length of a proof list); pending proofs are deleted only by the melt, its poll and the state-checked maintenance calls; the network layer sets no timeout or deadline of its own.",
+}
+for _k, _v in EXTRA4.items():
+    _t = CLAIMED[_k]
+    CLAIMED[_k] = (_t[0], _t[1] + " " + _v, _t[2], _t[3])
